@@ -1001,7 +1001,13 @@ class UTPM(Ring, RawAlgorithmsMixIn):
         else:
             xbar, = out
 
-        xbar.data.real = ybar.data
+        if numpy.may_share_memory(xbar.data, ybar.data):
+            # y = real(x) is a view of x (complex data): ybar already is the
+            # real part of xbar
+            xbar.data.real = ybar.data
+        else:
+            # real data: y is x itself but has its own adjoint; accumulate
+            xbar.data.real += ybar.data
 
     @classmethod
     def imag(cls, x):
